@@ -40,7 +40,7 @@ fn any_range() -> Range<u64> {
     a..b
 }
 
-// @harness btree_range_set_replace_model props=C01 tier=thorough kind=bounded bound="offsets below 16; a set built by at most two inserts; one replace (possibly of an empty range) drained completely" timeout=1500 fn="RangeSet::replace / Replace::next / Replace::drop / RangeSet::insert (btree)" desc="after replace(r) the set is the old set plus r, what the iterator yields is exactly the part of r that was already present, in ascending order, and the representation invariant (non-empty, sorted, non-touching ranges) holds -- also when r is empty"
+// @harness btree_range_set_replace_model props=C01 tier=thorough kind=attempt bound="offsets below 16; a set built by at most two inserts; one replace (possibly of an empty range) drained completely" timeout=1500 fn="RangeSet::replace / Replace::next / Replace::drop / RangeSet::insert (btree)" desc="after replace(r) the set is the old set plus r, what the iterator yields is exactly the part of r that was already present, in ascending order, and the representation invariant (non-empty, sorted, non-touching ranges) holds -- also when r is empty"
 #[cfg_attr(kani, kani::proof)]
 #[cfg_attr(kani, kani::unwind(18))]
 #[cfg_attr(verif_replay, test)]
